@@ -326,6 +326,8 @@ def build_fn(item, spec, canary, log):
             cl.append("    %s\n" % kind + "".join("        %s%s,\n" % (MARK % _reg((kind, c[1], c[2], c[3] if len(c) > 3 else None)), c[2]) for c in group))
     if spec.get("no_decreases"):
         sig = "#[verifier::exec_allows_no_decreases_clause]\n" + sig
+    if spec.get("spinoff"):
+        sig = "#[verifier::spinoff_prover]\n" + sig      # own solver process: lets Verus check the functions of one file in parallel (no semantic effect)
     if canary:
         body = "{\n%sproof { assert(false); } // canary\n" % (MARK % _reg(("canary", "body", ""))) + body[1:]
     out = sig.rstrip() + "\n" + "".join(cl) + body
@@ -356,6 +358,8 @@ def assemble(unit, repo, canary=False):
             asm.add(part)
             continue
         spec = part
+        if unit.get("spinoff") and spec.get("kind", "fn") == "fn" and "spinoff" not in spec:
+            spec = dict(spec, spinoff=True)
         rel = spec["file"]
         if rel not in files:
             files[rel] = SourceFile(repo, rel)
